@@ -140,7 +140,7 @@ def gen_grid(rng, rows, cols, a, b):
     return {"kind": "grid", "min": mn, "max": mx}
 
 
-def gen_case(rng, method=None, small=False, beyond=False, allow_bands=True, quarter_ok=True):
+def gen_case(rng, method=None, small=False, beyond=False, allow_bands=True, quarter_ok=True, force_bands=False):
     method = method or rng.choice(MEASURES)
     window = rng.choice([3, 5]) if method == "census" else rng.choice([1, 3, 3, 5])
     subpix = rng.choice([1, 1, 2, 4])
@@ -152,7 +152,10 @@ def gen_case(rng, method=None, small=False, beyond=False, allow_bands=True, quar
         rows, cols = rng.randint(lo_r, 10), rng.randint(lo_c, 13)
     bands = None
     band = None
-    if allow_bands and rng.random() < 0.3:
+    if force_bands:
+        bands = rng.choice([["r", "g"], ["b", "g", "r"], ["r", "g", "b", "nir"]])
+        band = rng.choice(bands)
+    elif allow_bands and rng.random() < 0.3:
         bands = rng.choice([["r"], ["r", "g"], ["b", "g", "r"]])
         band = rng.choice(bands)
     maxv = rng.choice([1, 3, 12, 40])
@@ -173,6 +176,8 @@ def gen_case(rng, method=None, small=False, beyond=False, allow_bands=True, quar
         "cols": cols,
         "bands": bands,
         "band": band,
+        "right_band_perm": (rng.sample(range(len(bands)), len(bands)) if bands and len(bands) > 1 and (force_bands or rng.random() < 0.6) else None),
+        "left_band_perm": (rng.sample(range(len(bands)), len(bands)) if bands and len(bands) > 1 and rng.random() < 0.2 else None),
         "left_im": image(),
         "right_im": image(),
         "left_msk": gen_mask(rng, rows, cols) if rng.random() < 0.45 else None,
